@@ -83,3 +83,12 @@ for d in /verif/seeded/S6-C*; do
   esac
   m $d/patch.diff $p $extra
 done
+# round 7
+for d in /verif/seeded/S7-C*; do
+  s=$(basename $d); p=${s#S7-}; p=${p%%-*}
+  extra=""
+  case $s in
+    S7-C01-2) extra="C19 C02";; S7-C01-1) extra="C02";; S7-C11-2) extra="C07";;
+  esac
+  m $d/patch.diff $p $extra
+done
